@@ -3,6 +3,7 @@
    Cif/LexProofs.v (written values are read back as they were). Model: Cif/Quote.v, Write.v, Buf.v, Lex.v
    (mirrors cifdoc.hpp / to_cif.hpp / the value-level rules of cif.hpp after the three repairs);
    Cif/Legacy.v keeps the snapshot's behaviour for the *_refuted_before_fix statements. *)
+From GV Require Cif.JsonNum Cif.JsonNumProofs Num.DecParse.
 From GV Require Import Cif.Quote Cif.Write Cif.Buf Cif.Lex Cif.Legacy Cif.QuoteProofs Cif.BufProofs
   Cif.LexProofs Cif.LayoutProofs Cif.Sequence Cif.Tokens Cif.DocTokens Cif.DocParse.
 Local Open Scope Z_scope.
@@ -158,3 +159,32 @@ Theorem C01_document_roundtrip : forall o d, wf_doc d -> gr_doc d ->
 Proof. exact write_cif_parses. Qed.
 Print Assumptions C01_document_roundtrip.
 
+
+(* ------------------------------------------------------------------------------------------------------------
+   Numbers in the JSON / mmJSON output (JsonWriter::write_as_number of src/to_json.cpp, modelled in Cif/JsonNum.v with the
+   positions, find() and back() of the code). For EVERY string of the CIF 1.1 production
+       Numeric := [+-]? ( Digit+ | Digit* '.' Digit+ | Digit+ '.' ) ( [eE] [+-]? Digit+ )? ( '(' Digit+ ')' )?
+   given by its parts, the text written is: the minus sign if any, the integer digits without leading zeros (a 0 when
+   there are none), the point followed by the fraction digits (a 0 when there are none), the exponent as it was, and no
+   standard uncertainty - and the JSON number grammar of RFC 8259 accepts it. *)
+Theorem C01_json_number_text : forall sg d1 dot d2 ex su,
+  JsonNumProofs.is_sign sg -> JsonNumProofs.digits d1 -> JsonNumProofs.digits d2 -> (dot = false -> d2 = []) ->
+  (d1 <> [] \/ d2 <> []) -> JsonNumProofs.is_exp ex -> JsonNumProofs.is_su su ->
+  JsonNum.write_as_number (JsonNumProofs.render sg d1 dot d2 ex su)
+  = JsonNumProofs.sgo_of sg ++ JsonNumProofs.ip_of d1 ++ JsonNumProofs.fp_of dot d2 ++ ex.
+Proof. exact JsonNumProofs.write_as_number_render. Qed.
+Print Assumptions C01_json_number_text.
+
+Theorem C01_json_number_valid : forall sg d1 dot d2 ex su,
+  JsonNumProofs.is_sign sg -> JsonNumProofs.digits d1 -> JsonNumProofs.digits d2 -> (dot = false -> d2 = []) ->
+  (d1 <> [] \/ d2 <> []) -> JsonNumProofs.is_exp ex -> JsonNumProofs.is_su su ->
+  JsonNum.json_number (JsonNum.write_as_number (JsonNumProofs.render sg d1 dot d2 ex su)) = true.
+Proof. exact JsonNumProofs.write_as_number_is_json. Qed.
+Print Assumptions C01_json_number_valid.
+
+(* non-vacuity: -007.(12) is such a string (the CIF number recogniser of property C12 accepts it) and is written -7.0 *)
+Example C01_json_number_example :
+  JsonNumProofs.render [45] [48; 48; 55] true [] [] [40; 49; 50; 41] = [45; 48; 48; 55; 46; 40; 49; 50; 41] /\
+  DecParse.is_cif_numb [45; 48; 48; 55; 46; 40; 49; 50; 41] = true /\
+  JsonNum.write_as_number [45; 48; 48; 55; 46; 40; 49; 50; 41] = [45; 55; 46; 48].
+Proof. vm_compute. repeat split; reflexivity. Qed.
